@@ -415,6 +415,21 @@ func carryRule(c *Ctx, fnName, field string, preds []startPred) int {
 							detail = fmt.Sprintf("with the start marker set, the success return at %s is reachable without clearing %s", p.Position(ret.Pos()), field)
 						}
 					}
+					// a path on which the buffer was found empty needs no clearing
+					if len(x.Instrs) > 0 {
+						if xi, isIf := x.Instrs[len(x.Instrs)-1].(*ssa.If); isIf && isEmptinessTest(xi.Cond, recv, field) {
+							if bo, ok := xi.Cond.(*ssa.BinOp); ok {
+								switch bo.Op {
+								case token.GTR, token.NEQ:
+									stack = append(stack, x.Succs[0])
+									continue
+								case token.EQL:
+									stack = append(stack, x.Succs[1])
+									continue
+								}
+							}
+						}
+					}
 					stack = append(stack, x.Succs...)
 				}
 			}
